@@ -64,6 +64,7 @@ func init() {
 	"slices.ContainsFunc":     extSlicesContainsFunc,
 	"slices.IndexFunc":        extSlicesIndexFunc,
 	"slices.DeleteFunc":       extSlicesDeleteFunc,
+	"slices.SortFunc":         extSlicesSortFunc,
 	"math.Ceil":               extMathCeil,
 	"context.WithCancel":      extNoop,
 	"context.Background":      extNoop,
@@ -95,7 +96,7 @@ var pureExternPrefixes = []string{
 	"fmt.Sprint", "fmt.Print", "fmt.Fprint", "strings.", "strconv.", "(*encoding/base64.Encoding).EncodeToString",
 	"encoding/hex.EncodeToString", "time.", "(time.Time).", "(time.Duration).", "(*time.Timer).", "unicode.", "unicode/utf8.",
 	"(*strings.Builder).", "math.", "errors.Is", "errors.As", "errors.Unwrap", "os.Getenv", "runtime.", "(*sync.Once).",
-	"context.With", "context.Background", "context.TODO", "(*sync/atomic.", "sync/atomic.",
+	"context.With", "context.Background", "context.TODO", "bytes.Equal", "bytes.Compare", "crypto/sha256.Sum256", "crypto/sha512.", "(*sync/atomic.", "sync/atomic.",
 }
 
 func findIfaceExtern(t types.Type, m *types.Func) ifaceExternFn {
@@ -274,4 +275,32 @@ func extSlicesDeleteFunc(e *Env, fr *Frame, fn *ssa.Function, args []Value, rt t
 		e.noteWrite(name, s.Arr)
 	}
 	return &Slice{Arr: s.Arr, Off: s.Off, Len: n, Cap: s.Cap, Typ: rt}
+}
+
+// slices.SortFunc(s, cmp): the elements are permuted in place (bijection pi on the index
+// range). Sortedness with respect to cmp is NOT assumed (it only holds when cmp is a strict
+// weak ordering, which is the caller's obligation and is not established here).
+func extSlicesSortFunc(e *Env, fr *Frame, fn *ssa.Function, args []Value, rt types.Type, st *State) Value {
+	s := args[0].(*Slice)
+	et := s.Typ.Underlying().(*types.Slice).Elem()
+	e.counter++
+	pi := q(fmt.Sprintf("sortpi!%d", e.counter))
+	inv := q(fmt.Sprintf("sortinv!%d", e.counter))
+	e.sess.Cmd("(declare-fun " + pi + " (Int) Int)")
+	e.sess.Cmd("(declare-fun " + inv + " (Int) Int)")
+	k, j := "|$k|", "|$j|"
+	e.assume(fmt.Sprintf("(forall ((%s Int)) (! (=> (and (<= 0 %s) (< %s %s)) (and (<= 0 (%s %s)) (< (%s %s) %s) (= (%s (%s %s)) %s))) :pattern ((%s %s))))", k, k, k, s.Len, pi, k, pi, k, s.Len, inv, pi, k, k, pi, k))
+	e.assume(fmt.Sprintf("(forall ((%s Int)) (! (=> (and (<= 0 %s) (< %s %s)) (and (<= 0 (%s %s)) (< (%s %s) %s) (= (%s (%s %s)) %s))) :pattern ((%s %s))))", j, j, j, s.Len, inv, j, inv, j, s.Len, pi, inv, j, j, inv, j))
+	names, sorts, leaves := e.elemArrays(et)
+	for i, name := range names {
+		arr := e.heapGet(st, name, sorts[i])
+		inner := "(Array Int " + leaves[i].Sort + ")"
+		old := e.maybeNameForce(mkSelect(arr, s.Arr), inner, "sortold")
+		ni := e.fresh("sorted", inner)
+		e.assume(fmt.Sprintf("(forall ((%s Int)) (! (=> (and (<= 0 %s) (< %s %s)) (= (select %s (+ %s %s)) (select %s (+ %s (%s %s))))) :pattern ((select %s (+ %s %s)))))", k, k, k, s.Len, ni, s.Off, k, old, s.Off, pi, k, ni, s.Off, k))
+		e.assume(fmt.Sprintf("(forall ((%s Int)) (! (=> (or (< %s %s) (>= %s (+ %s %s))) (= (select %s %s) (select %s %s))) :pattern ((select %s %s))))", j, j, s.Off, j, s.Off, s.Len, ni, j, old, j, ni, j))
+		e.heapSet(st, name, sorts[i], e.maybeName(mkStore(arr, s.Arr, ni), sorts[i]))
+		e.noteWrite(name, s.Arr)
+	}
+	return nil
 }
